@@ -2,7 +2,7 @@
     given as (s, from, to) and encoded by the real [New] in the executor, so
     every case ties New and the function under test to the code. *)
 From Coq Require Import ZArith List Bool String.
-From Low Require Import Lib.Bits Lib.BitSeq Lib.Bytes Lib.Lex Lib.Val Lib.Pack_bw Model.Bitstr Spec.BitstrSpec.
+From Low Require Import Lib.Bits Lib.BitSeq Lib.Bytes Lib.Lex Lib.Val Lib.Pack_bw Model.Bitstr Spec.BitstrSpec Spec.BitstrSearchSpec.
 Import ListNotations.
 Open Scope string_scope.
 Open Scope Z_scope.
@@ -87,5 +87,45 @@ Definition ops_C09 : list opdef := [
            | Some x, Some s, Some f, Some t =>
                VL [VZ (spec_CmpUpto x s f t); VZ (spec_CmpUpto x s f t); VZ 1]
            | _, _, _, _ => VBad end
-       | _ => VBad end) |}
+       | _ => VBad end) |};
+  (* WIDENED: [CmpUpto(a, e), Cmp(New(a, 0, min(8*len(a), Len(e))), e)]: truncate-compare = compare of the truncation *)
+  {| op_name := "bitstr.CmpUpto/viaNew";
+     op_run := fun a => match a with
+       | [x; s; f; t] => match as_zs x, as_zs s, as_z f, as_z t with
+           | Some x, Some s, Some f, Some t =>
+               if bytes_okb x && range_ok s f t then
+                 match bind (New s f t) (fun e =>
+                         bind (CmpUpto x e) (fun r1 =>
+                         bind (Len e) (fun n =>
+                         bind (New x 0 (Z.min (8 * zlen x) n)) (fun e2 =>
+                         bind (Cmp e2 e) (fun r2 => Some [r1; r2]))))) with
+                 | Some rs => vzs rs | None => VPanic end
+               else VBad
+           | _, _, _, _ => VBad end
+       | _ => VBad end;
+     op_spec := fun_spec (fun a => match a with
+       | [x; s; f; t] => match as_zs x, as_zs s, as_z f, as_z t with
+           | Some x, Some s, Some f, Some t =>
+               VL [VZ (spec_CmpUpto x s f t); VZ (spec_CmpUpto x s f t)]
+           | _, _, _, _ => VBad end
+       | _ => VBad end) |};
+  (* WIDENED: [CmpUpto(k, e) for k in keys], keys sorted by bytes.Compare: the results must be the
+     spec's values and (hence) non-decreasing, i.e. the matches form one contiguous block *)
+  {| op_name := "bitstr.CmpUpto/sorted";
+     op_run := fun a => match a with
+       | [ks; s; f; t] => match as_zss ks, as_zs s, as_z f, as_z t with
+           | Some ks, Some s, Some f, Some t =>
+               if forallb bytes_okb ks && keys_sortedb ks && range_ok s f t then
+                 match bind (New s f t) (fun e => opt_all (map (fun k => CmpUpto k e) ks)) with
+                 | Some rs => vzs rs | None => VPanic end
+               else VBad
+           | _, _, _, _ => VBad end
+       | _ => VBad end;
+     op_spec := fun a obs => match a with
+       | [ks; s; f; t] => match as_zss ks, as_zs s, as_z f, as_z t with
+           | Some ks, Some s, Some f, Some t =>
+               val_eqb (vzs (spec_search ks (B s f t))) obs
+               && match as_zs obs with Some rs => nondecb rs | None => false end
+           | _, _, _, _ => false end
+       | _ => false end |}
 ].
